@@ -56,7 +56,7 @@ func (e *Engine) VerifyFunc(name string, opts UnitOpts) (u *Unit, err error) {
 	st.alloc = u.fresh("alloc0", SInt)
 	u.emitFact(app(SBool, ">=", st.alloc, intLit(1000)))
 	f := &Frame{u: u, fn: fn, vals: map[ssa.Value]*V{}, top: true, contract: ct, params: map[string]*V{}, lets: map[string]*V{},
-		iters: map[ssa.Value]*iterInfo{}, callOrd: map[string]int{}, litOrd: map[string]int{}}
+		iters: map[ssa.Value]*iterInfo{}, callOrd: map[string]int{}, litOrd: map[string]int{}, usedAnchors: map[string]bool{}}
 	for _, p := range fn.Params {
 		v := u.freshVal(st, p.Type(), "p!"+p.Name())
 		f.vals[p] = v
@@ -114,6 +114,11 @@ func (e *Engine) VerifyFunc(name string, opts UnitOpts) (u *Unit, err error) {
 	}
 	u.coverCheck(st, "requires")
 	f.run(st)
+	for _, a := range ct.Asserts {
+		if !f.usedAnchors[a.Anchor] {
+			return nil, fmt.Errorf("%s: anchor %q of an assert@/assume@ clause was not found", name, a.Anchor)
+		}
+	}
 	return u, nil
 }
 
